@@ -21,7 +21,9 @@ import types
 
 
 class Aln:
-    def __init__(self, query_name, flag, reference_start, length, tags):
+    def __init__(self, query_name, flag, reference_start, length, tags, ref_id=0):
+        self.reference_id = ref_id if reference_start is not None and reference_start >= 0 else -1
+        self.reference_name = None if self.reference_id < 0 else "chr%d" % (self.reference_id + 1)
         self.query_name = query_name
         self.flag = flag
         self.reference_start = reference_start
@@ -50,23 +52,23 @@ class Aln:
         return list(self.tags_.items())
 
 
-def make_sym_aln(name, flag, start, length, tags):
-    return Aln(name, flag, start, length, tags)
+def make_sym_aln(name, flag, start, length, tags, ref_id=0):
+    return Aln(name, flag, start, length, tags, ref_id)
 
 
 _HDR = []
 
 
-def make_real_aln(name, flag, start, length, tags):
+def make_real_aln(name, flag, start, length, tags, ref_id=0):
     import pysam
 
     if not _HDR:
-        _HDR.append(pysam.AlignmentHeader.from_dict({"HD": {"VN": "1.6", "SO": "coordinate"}, "SQ": [{"SN": "chr1", "LN": 100000}]}))
+        _HDR.append(pysam.AlignmentHeader.from_dict({"HD": {"VN": "1.6", "SO": "coordinate"}, "SQ": [{"SN": "chr1", "LN": 100000}, {"SN": "chr2", "LN": 100000}]}))
     a = pysam.AlignedSegment(_HDR[0])
     a.query_name = name
     a.flag = flag
     placed = start is not None and start >= 0
-    a.reference_id = 0 if placed else -1
+    a.reference_id = ref_id if placed else -1
     a.reference_start = start if placed else -1
     a.mapping_quality = 60
     a.query_sequence = "A" * length
@@ -170,14 +172,22 @@ class _Header:
 
 
 class BamIn:
-    """pysam.AlignmentFile opened for reading.  records: list of alignments in file order; `placed(a)` tells
-    (start, end) on chr1 or None for the unplaced tail."""
+    """pysam.AlignmentFile (an indexed BAM) opened for reading.  records: list of alignments in file order; `span(a)`
+    tells where a record is placed: (start, end) on the first contig, (contig, start, end), or None for the unplaced tail.
+    Besides fetch() the index-level queries of pysam.AlignmentFile are answered from the same records (a BAM index counts,
+    per contig, the records placed there split into mapped and unmapped ones - flag 0x4 - and the unplaced rest)."""
+
+    is_bam = True
+    is_cram = False
+    is_sam = False
 
     def __init__(self, records, header, span):
         self.records = records
         self.header = _Header(header)
         self.span = span
         self.references = tuple(sq["SN"] for sq in header.get("SQ", []))
+        self.lengths = tuple(sq["LN"] for sq in header.get("SQ", []))
+        self.nreferences = len(self.references)
         self.fetches = []
 
     def __enter__(self):
@@ -189,22 +199,63 @@ class BamIn:
     def close(self):
         pass
 
+    def _loc(self, a):
+        sp = self.span(a)
+        if sp is None:
+            return None
+        return (self.references[0],) + tuple(sp) if len(sp) == 2 else tuple(sp)
+
+    def has_index(self):
+        return True
+
+    def check_index(self):
+        return True
+
+    def get_reference_name(self, i):
+        return self.references[i]
+
+    def get_tid(self, name):
+        return self.references.index(name) if name in self.references else -1
+
+    def get_index_statistics(self):
+        import collections
+
+        Stat = collections.namedtuple("IndexStats", ["contig", "mapped", "unmapped", "total"])
+        out = []
+        for c in self.references:
+            here = [a for a in self.records if self._loc(a) is not None and self._loc(a)[0] == c]
+            un = sum(1 for a in here if a.flag & 4)
+            out.append(Stat(c, len(here) - un, un, len(here)))
+        return out
+
+    mapped = property(lambda self: sum(s.mapped for s in self.get_index_statistics()))
+    unmapped = property(lambda self: sum(s.unmapped for s in self.get_index_statistics()) + self.nocoordinate)
+    nocoordinate = property(lambda self: sum(1 for a in self.records if self._loc(a) is None))
+
+    def count(self, contig=None, start=None, stop=None, **kw):
+        n = sum(1 for _ in self.fetch(contig=contig, start=start, stop=stop))
+        self.fetches.pop()
+        return n
+
     def fetch(self, contig=None, start=None, stop=None, **kw):
         self.fetches.append((contig, start, stop))
         out = []
         for a in self.records:
-            sp = self.span(a)
+            loc = self._loc(a)
             if contig == "*":
-                if sp is None:
+                if loc is None:
                     out.append(a)
                 continue
-            if sp is None or contig != self.references[0]:
+            if loc is None or (contig is not None and contig != loc[0]):
                 continue
-            s, e = sp
+            _, s, e = loc
             lo = 0 if start is None else start
             if e > lo and (stop is None or s < stop):
                 out.append(a)
         return iter(out)
+
+    def __iter__(self):
+        return iter(self.records)
 
 
 class BamOut:
@@ -248,9 +299,10 @@ class TextOut:
 class VcfIn:
     """VcfReader stand-in: one chromosome, one prepared VariantTable."""
 
-    def __init__(self, samples, table, invalid_exc):
+    def __init__(self, samples, table, invalid_exc, more_tables=()):
         self.samples = samples
         self.table = table
+        self.more = {t.chromosome: t for t in more_tables}  # further contigs of the VCF (e.g. one without any variant)
         self.invalid_exc = invalid_exc
         self.fetched = []
 
@@ -262,6 +314,8 @@ class VcfIn:
 
     def fetch_regions(self, chromosome, regions):
         self.fetched.append((chromosome, list(regions)))
+        if chromosome in self.more:
+            return self.more[chromosome]
         if self.table is None or chromosome != self.table.chromosome:
             raise self.invalid_exc(chromosome)
         return self.table
